@@ -553,6 +553,11 @@ def mixed_wiring_specs():
                      {"name": "TM1", "targets": [0, 1], "workers": [{"name": "W1", "skills": {"T0": 1.0, "T1": 1.0}, "cost": 2.0}]}]
             teams[ctor_team]["wire"] = "ctor"
             out.append({"tasks": tasks, "links": [], "teams": teams, "label": "mixed-wiring:%s:%d" % (wv, ctor_team)})
+            # the helper-wired team serves one task only: the other task is known to the constructor-wired team alone
+            for only in (0, 1):
+                t2 = [dict(tm) for tm in teams]
+                t2[1 - ctor_team]["targets"] = [only]
+                out.append({"tasks": tasks, "links": [], "teams": t2, "label": "mixed-wiring:%s:%d:only%d" % (wv, ctor_team, only)})
     return out
 
 
@@ -567,4 +572,23 @@ def float_order_specs():
             wb = {"name": "W1", "skills": {"T0": 0.6}, "solo": True, "cost": 2.0}
             ws = [wa, wb] if first == 0 else [wb, wa]
             out.append({"tasks": tasks, "links": [[0, 1, "FS"]], "teams": [{"name": "TM0", "targets": [0, 1, 2], "workers": ws}], "label": "float-order:%s:%d" % (wrule, first)})
+    return out
+
+
+def waiting_assembly_specs():
+    """assembly P (size 2) whose finished parts c1, c2 (size 1 each) stay parked in the parts area (capacity 2) because the assembly hall
+    is partly taken by an unrelated long job D; another component E wants the parts area meanwhile"""
+    out = []
+    for d_work, hall_cap in ((8.0, 2.0), (4.0, 2.0), (8.0, 3.0)):
+        tasks = [{"name": "part", "id": "T0", "work": 2.0, "nf": True, "fixw": ["W0"]}, {"name": "part", "id": "T1", "work": 2.0, "nf": True, "fixw": ["W1"]},
+                 {"name": "assemble", "id": "T2", "work": 2.0, "nf": True, "fixw": ["W2"]}, {"name": "other", "id": "T3", "work": d_work, "nf": True, "fixw": ["W3"]},
+                 {"name": "part", "id": "T4", "work": 3.0, "nf": True, "fixw": ["W4"]}]
+        comps = [{"name": "P", "space": 2.0, "tasks": [2], "children": [1, 2]}, {"name": "c1", "space": 1.0, "tasks": [0]}, {"name": "c2", "space": 1.0, "tasks": [1]},
+                 {"name": "D", "space": 1.0, "tasks": [3]}, {"name": "E", "space": 1.0, "tasks": [4]}]
+        wps = [{"name": "Wc", "cap": 2.0, "targets": [0, 1, 4], "facilities": [{"name": "fc1", "skills": {"part": 1.0}}, {"name": "fc2", "skills": {"part": 1.0}}]},
+               {"name": "W", "cap": hall_cap, "targets": [2, 3], "facilities": [{"name": "fa1", "skills": {"assemble": 1.0}}, {"name": "fa2", "skills": {"other": 1.0}}]}]
+        sk = {"part": 1.0, "assemble": 1.0, "other": 1.0}
+        fsk = {"fc1": 1.0, "fc2": 1.0, "fa1": 1.0, "fa2": 1.0}
+        teams = [{"name": "TM0", "targets": [0, 1, 2, 3, 4], "workers": [{"name": "W%d" % i, "skills": dict(sk), "fskills": dict(fsk)} for i in range(5)]}]
+        out.append({"tasks": tasks, "links": [[0, 2, "FS"], [1, 2, "FS"]], "components": comps, "workplaces": wps, "teams": teams, "label": "waiting-assembly:%s:%s" % (d_work, hall_cap)})
     return out
